@@ -252,10 +252,15 @@ def run_family(ctx, fam, extra_args=(), timeout=3600):
     t = time.time()
     statsf = os.path.join(ctx.work, f'{fam}.stats.json')
     outf = os.path.join(ctx.work, f'{fam}.impl.tsv')
+    class _P:
+        returncode, stderr = -9, 'family run exceeded its time limit and was killed'
     with open(outf, 'w') as fh:
-        p = subprocess.run([os.path.join(BIN, 'fitharness'), 'run', fam, '-tier', ctx.tier, '-seed', str(ctx.seed),
-                            '-stats', statsf] + list(extra_args), stdout=fh, stderr=subprocess.PIPE, text=True,
-                           timeout=timeout, env=dict(GOENV, GOMEMLIMIT='8GiB'))
+        try:
+            p = subprocess.run([os.path.join(BIN, 'fitharness'), 'run', fam, '-tier', ctx.tier, '-seed', str(ctx.seed),
+                                '-stats', statsf] + list(extra_args), stdout=fh, stderr=subprocess.PIPE, text=True,
+                               timeout=timeout, env=dict(GOENV, GOMEMLIMIT='8GiB'))
+        except subprocess.TimeoutExpired:
+            p = _P()
     ops, impl = [], []
     with open(outf) as fh:
         for l in fh:
@@ -268,7 +273,12 @@ def run_family(ctx, fam, extra_args=(), timeout=3600):
         stats = json.load(open(statsf))
     except Exception:
         pass
-    if p.returncode != 0:
+    if p.returncode == 4 and impl and impl[-1] == 'hang':
+        # the harness watchdog: the last operation did not come back within the per-operation limit. The model
+        # never answers `hang`, so the correspondence reports it too; here it is named as the failing input.
+        ctx.fail('prop', f'an operation of family {fam} does not terminate on the implementation (per-operation time limit); '
+                         f'the remaining operations of the family were not run', family=fam, op=ops[-1], impl='hang')
+    elif p.returncode != 0:
         ctx.fail('tool', f'harness family {fam} exited {p.returncode}', detail=p.stderr[-2000:])
     ctx.timing[f'impl_{fam}'] = round(time.time() - t, 2)
     return ops, impl, stats
